@@ -184,6 +184,15 @@ func c16Gen(tier string, emit func(c16Case)) {
 	}
 	// extra single leaves that are sentences of the grammar
 	extra := []*PExpr{PP("ex.p_1"), PP(`ex.a\/b`), PP("ex.a/b"), PP("ex-1.p-q"), PP("ex.p.q"), PI("ex.p_1")}
+	// identifier lengths on both sides of every power of two up to 256, for the local name and for the prefix (a
+	// parser that copies identifiers into fixed-size storage shows here: the structure carries the whole IRI)
+	for _, n := range c16Lengths {
+		local := strings.Repeat("k", n-1) + "z"
+		extra = append(extra, PP("ex."+local), PI("ex."+local))
+	}
+	for _, n := range c16PrefixLengths {
+		extra = append(extra, PP(c16LongPrefix(n)+".p"))
+	}
 	for _, e := range extra {
 		asts = append(asts, e, PS(e, PP("ex.q")), PA(PP("ex.q"), e))
 	}
@@ -203,8 +212,17 @@ func c16Gen(tier string, emit func(c16Case)) {
 	flush()
 }
 
+var c16Lengths = []int{31, 32, 33, 63, 64, 65, 128, 129, 256, 257} // (a YAML mapping key is limited to 1024 characters, layouts add to the length)
+var c16PrefixLengths = []int{32, 33, 65, 257}
+
+func c16LongPrefix(n int) string { return strings.Repeat("w", n-1) + "x" }
+
 func c16Profile(path string) string {
-	return EmitYAML(M("profile", "c16", "prefixes", M("ex", EX, "ex-1", EX+"one/"), "violation", strs("v"),
+	pre := M("ex", EX, "ex-1", EX+"one/")
+	for _, n := range c16PrefixLengths {
+		pre.Set(c16LongPrefix(n), fmt.Sprintf("%slong%d/", EX, n))
+	}
+	return EmitYAML(M("profile", "c16", "prefixes", pre, "violation", strs("v"),
 		"validations", M("v", M("message", "m", "targetClass", "ex.T", "propertyConstraints", M(path, M("in", strs("__none__")))))))
 }
 
@@ -332,7 +350,13 @@ func declaredPrefixes(p *PExpr) bool {
 	if p.Kind == "pred" {
 		pre := p.Pred[:strings.Index(p.Pred, ".")]
 		if pre != "ex" && pre != "ex-1" {
-			return false
+			long := false
+			for _, n := range c16PrefixLengths {
+				long = long || pre == c16LongPrefix(n)
+			}
+			if !long {
+				return false
+			}
 		}
 	}
 	for _, k := range p.Kids {
